@@ -234,3 +234,105 @@ Definition is_opb (f : formula) : bool := match f with FOpb _ _ => true | _ => f
 (* names the decoder theorem is stated for: no white space inside a name *)
 Definition no_ws_text (t : text) : bool := forallb (fun c => negb (is_space c)) t.
 Definition latex_names_ok (names : list text) : bool := forallb no_ws_text names.
+
+(* ---- from a literal token back to the literal (NOT cnfgen code: part of the
+   statement, like rows_of_latex) ---- *)
+
+(* s = p ++ r  ->  Some r *)
+Fixpoint strip_prefix (p s : text) : option text :=
+  match p with
+  | [] => Some s
+  | c :: p' => match s with
+               | d :: s' => if Ascii.eqb c d then strip_prefix p' s' else None
+               | [] => None
+               end
+  end.
+(* s = a ++ [c]  ->  Some a *)
+Definition strip_last (c : ascii) (s : text) : option text :=
+  match rev s with
+  | d :: r => if Ascii.eqb d c then Some (rev r) else None
+  | [] => None
+  end.
+
+(* (polarity, variable name) of a literal token:
+     {name}                        positive
+     \overline{name}               negative, name without '_' / '^' after position 0
+     {\overline{pre}post}          negative, name = pre ++ post, post starts at the first '_' or '^' after position 0
+   (in the last form the inserted brace is found again with split_point) *)
+Definition decode_lit (t : text) : option (bool * text) :=
+  match strip_prefix (lit "{\overline{") t with
+  | Some r =>
+    match strip_last "}"%char r with
+    | Some x =>
+      match split_point x with
+      | Some (S k) => match skipn k x with
+                      | c :: post => if Ascii.eqb c "}"%char then Some (false, firstn k x ++ post) else None
+                      | [] => None
+                      end
+      | _ => None
+      end
+    | None => None
+    end
+  | None =>
+    match strip_prefix (lit "\overline{") t with
+    | Some r => option_map (fun nm => (false, nm)) (strip_last "}"%char r)
+    | None => match strip_prefix (lit "{") t with
+              | Some r => option_map (fun nm => (true, nm)) (strip_last "}"%char r)
+              | None => None
+              end
+    end
+  end.
+
+(* the literal itself: polarity and the name of its variable *)
+Definition lit_name (names : list text) (l : Z) : option (bool * text) :=
+  if l =? 0 then None
+  else match nthZ names (Z.abs l - 1) with
+       | Some nm => Some (0 <? l, nm)
+       | None => None
+       end.
+
+(* names the literal decoding is stated for: a name that itself begins with
+   \overline{ would be read as a negation ({\overline{x}_1} is the positive
+   literal of "\overline{x}_1" and the negative literal of "x_1") *)
+Definition starts_overline (nm : text) : bool :=
+  match strip_prefix (lit "\overline{") nm with Some _ => true | None => false end.
+Definition latex_names_decodable (names : list text) : bool :=
+  forallb (fun nm => negb (starts_overline nm)) names.
+
+(* rows that speak about literals *)
+Inductive litrow :=
+| LSquare                                                    (* the empty clause *)
+| LClause (lits : list (bool * text))                         (* (polarity, name) in order *)
+| LConstraint (terms : list (text * (bool * text))) (o : pbop) (value : text).
+                                                             (* (coefficient as shown, (polarity, name)) *)
+Fixpoint span_digits (t : text) : text * text :=
+  match t with
+  | c :: r => if is_digit c then let '(d, rest) := span_digits r in (c :: d, rest) else ([], t)
+  | [] => ([], [])
+  end.
+Definition decode_term (t : text) : option (text * (bool * text)) :=
+  let '(d, rest) := span_digits t in
+  match decode_lit rest with Some pl => Some (d, pl) | None => None end.
+Definition decode_lrow (r : lrow) : option litrow :=
+  match r with
+  | RSquare => Some LSquare
+  | RClause ts => option_map LClause (all_some (map decode_lit ts))
+  | RConstraint ts o v => option_map (fun x => LConstraint x o v) (all_some (map decode_term ts))
+  | RBad => None
+  end.
+
+(* what the rows should say, computed from the formula in memory only *)
+Definition clause_litrow (names : list text) (c : list Z) : option litrow :=
+  match c with
+  | [] => Some LSquare
+  | _ => option_map LClause (all_some (map (lit_name names) c))
+  end.
+Definition constraint_litrow (names : list text) (c : pbc) : option litrow :=
+  option_map (fun pls => LConstraint (combine (map (fun cl => coef_text (fst cl)) (pb_terms c)) pls)
+                                     (match pb_op c with PGe => PGe | _ => PEq end) (print_Z (pb_deg c)))
+             (all_some (map (fun cl => lit_name names (snd cl)) (pb_terms c))).
+Definition formula_litrows (names : list text) (f : formula) : option (list litrow) :=
+  match f with
+  | FCnf _ F => all_some (map (clause_litrow names) F)
+  | FOpb _ C => all_some (map (constraint_litrow names) C)
+  end.
